@@ -277,7 +277,8 @@ func VerifH_C14_MultiStatus() {
 	vrt.Assert((err == nil) == wantOK, "a multi-status call succeeds exactly for a readable 207")
 	if err != nil {
 		vrt.Assert(ms == nil, "no data together with an error")
-		if !is2xx {
+		if !is2xx || r.Status != 207 {
+			// not 2xx, or 2xx but not the 207 a multi-status call requires
 			var he *HTTPError
 			vrt.Assert(errors.As(err, &he) && he.Code == r.Status, "the error carries the HTTP status code")
 		}
